@@ -416,7 +416,7 @@ func Unpack(r io.Reader, dst string) error {
 }
 
 // Unpack unpacks the archive data in r into directory dst.
-func (p *Packer) Unpack(r io.Reader, dst string) error {
+func (p *Packer) Unpack(r io.Reader, dst string) (err error) {
 	// Track directory times and permissions so they can be restored after all files
 	// are extracted. This metadata modification is delayed because extracting files
 	// into a new directory would necessarily change its timestamps. By way of
@@ -424,6 +424,20 @@ func (p *Packer) Unpack(r io.Reader, dst string) error {
 	// https://www.gnu.org/software/tar/manual/html_node/Directory-Modification-Times-and-Permissions.html
 	// for more details about how tar attempts to preserve file metadata.
 	directoriesExtracted := []unpackinfo.UnpackInfo{}
+
+	// Track the symlinks we create. Each one is validated on its own when it
+	// is read, as text; once all entries are in place we check that none of
+	// them leads out of dst by way of another one.
+	type extractedSymlink struct{ name, path string }
+	symlinksExtracted := []extractedSymlink{}
+	defer func() {
+		// Also when extraction stops early: the links made so far stay behind.
+		for _, link := range symlinksExtracted {
+			if cerr := p.checkSymlinkDestination(dst, link.name, link.path); cerr != nil && err == nil {
+				err = cerr
+			}
+		}
+	}()
 
 	// Decompress as we read.
 	uncompressed, err := gzip.NewReader(r)
@@ -481,6 +495,10 @@ func (p *Packer) Unpack(r io.Reader, dst string) error {
 				return err
 			}
 
+			symlinksExtracted = append(symlinksExtracted, extractedSymlink{
+				name: strings.TrimLeft(header.Name, "/"),
+				path: info.Path,
+			})
 			continue
 		}
 
@@ -551,6 +569,126 @@ func (p *Packer) Unpack(r io.Reader, dst string) error {
 	}
 
 	return nil
+}
+
+// checkSymlinkDestination follows a symlink created by Unpack the way the
+// operating system would - through any other links on the way - and fails if
+// it leads outside of dst. validSymlink only reads a target as text: with
+// "a -> ." in place, the target "a/.." is dst's parent although it reads as
+// dst itself, whichever of the two links comes first in the slug.
+func (p *Packer) checkSymlinkDestination(dst, name, path string) error {
+	fi, err := os.Lstat(path)
+	if err != nil || fi.Mode()&os.ModeSymlink == 0 {
+		// Replaced by a later entry of the same name.
+		return nil
+	}
+	target, err := os.Readlink(path)
+	if err != nil {
+		return nil
+	}
+
+	absRoot, err := filepath.Abs(dst)
+	if err != nil {
+		return fmt.Errorf("failed making path %q absolute: %w", dst, err)
+	}
+	within := func(root, p string) bool {
+		prefix := root
+		if !strings.HasSuffix(prefix, string(filepath.Separator)) {
+			prefix += string(filepath.Separator)
+		}
+		return p == root || strings.HasPrefix(p, prefix)
+	}
+
+	// A target that reads as being outside of dst can only have been admitted
+	// through AllowSymlinkTarget; those are exempt here as well.
+	var textual string
+	if filepath.IsAbs(target) {
+		textual = filepath.Clean(target)
+	} else {
+		textual = filepath.Join(filepath.Dir(filepath.Join(absRoot, name)), target)
+	}
+	if !within(absRoot, textual) {
+		return nil
+	}
+
+	realRoot, err := filepath.EvalSymlinks(absRoot)
+	if err != nil {
+		realRoot = absRoot
+	}
+	realDir, err := filepath.EvalSymlinks(filepath.Dir(path))
+	if err != nil {
+		realDir = filepath.Dir(path)
+	}
+	resolved, ok := followSymlinks(realDir, target)
+	if !ok || within(realRoot, resolved) {
+		// A loop leads nowhere, so it cannot lead outside either.
+		return nil
+	}
+
+	// Do not leave the offending link behind.
+	os.Remove(path)
+	return &IllegalSlugError{
+		Err: fmt.Errorf(
+			"invalid symlink (%q -> %q) leads outside of the destination by way of another symlink",
+			name, target,
+		),
+	}
+}
+
+// followSymlinks resolves target, starting in dir, one path segment at a
+// time: ".." is applied to the directory actually reached and every symlink
+// on the way is followed. Behind the first segment that does not exist the
+// remaining segments are applied as text. It returns false if more than 255
+// links had to be followed, like the operating system's ELOOP.
+func followSymlinks(dir, target string) (string, bool) {
+	current := dir
+	if filepath.IsAbs(target) {
+		current = string(filepath.Separator)
+	}
+	pending := strings.Split(filepath.ToSlash(target), "/")
+	missing := false
+	hops := 0
+	for len(pending) > 0 {
+		seg := pending[0]
+		pending = pending[1:]
+		switch seg {
+		case "", ".":
+			continue
+		case "..":
+			current = filepath.Dir(current)
+			continue
+		}
+		next := filepath.Join(current, seg)
+		if missing {
+			current = next
+			continue
+		}
+		fi, err := os.Lstat(next)
+		if err != nil {
+			missing = true
+			current = next
+			continue
+		}
+		if fi.Mode()&os.ModeSymlink == 0 {
+			current = next
+			continue
+		}
+		hops++
+		if hops > 255 {
+			return "", false
+		}
+		linkTarget, err := os.Readlink(next)
+		if err != nil {
+			missing = true
+			current = next
+			continue
+		}
+		if filepath.IsAbs(linkTarget) {
+			current = string(filepath.Separator)
+		}
+		pending = append(strings.Split(filepath.ToSlash(linkTarget), "/"), pending...)
+	}
+	return current, true
 }
 
 // removeSymlink removes path if it is a symlink, so that a later archive entry
